@@ -72,7 +72,11 @@ def normClassParam (p : Param) : Param :=
   | some v => if isNoneVal v then classFill p else p
   | none => classFill p
 
-/-- inputs on which the class round trip is this regular (everything else is a recorded finding or
+/-- common part of the AST kinds' domains; the string "None" (what the ReST parser writes for a None
+    default) is read differently from `None`/`NoneStr` by the AST emitters and is left outside -/
+def domAstParam (p : Param) : Bool := p.default != some (.str sNone)
+
+/-- inputs on which the round trips are this regular (everything else is a recorded finding or
     outside the property's domain) -/
 def domParamCommon (p : Param) : Bool :=
   p.typ.isSome && p.doc.isSome &&
@@ -92,6 +96,8 @@ def normFuncParam (p : Param) : Param :=
 
 def domFuncParam (inlineTypes : Bool) (p : Param) : Bool :=
   domParamCommon p && (p.default != some (.str [])) &&
+  -- see domDocParam: "Defaults to None" in the prose of a scalar-typed entry misleads the next kind
+  (match p.typ, p.default with | some t, some v => !(isScalar t && isNoneVal v) | _, _ => true) &&
   (!inlineTypes ||
     (match p.typ, p.default with
      | some t, some v => isNoneVal v || isScalar t    -- D27: an explicit default re-types Optional/Literal/... when types are inline
@@ -139,6 +145,9 @@ def normDocEntry (st : DocStyle) (n : Str) (p : Param) : Param :=
 
 def domDocParam (p : Param) : Bool :=
   domParamCommon p &&
+  -- a scalar-typed entry whose default is none-like carries "Defaults to None" in its prose afterwards,
+  -- which the next AST kind reads differently from the IR's default: left outside
+  (match p.typ, p.default with | some t, some v => !(isScalar t && isNoneVal v) | _, _ => true) &&
   (match p.default with
    | some (.str s) => !s.isEmpty && !s.contains '.'
    | _ => true) &&
@@ -165,14 +174,15 @@ def norm (k : Kind) (ir : IR) : IR :=
                 | some r => if r.default.isSome then some r else none
                 | none => none }
   | .doc st => { ir with params := ir.params.map fun kp => (kp.1, normDocEntry st kp.1 kp.2),
-                         returns := ir.returns.map (normDocEntry st []) }
+                         returns := ir.returns.map (normDocEntry .rest []) }
 
 def dom (k : Kind) (ir : IR) : Bool :=
   match k with
-  | .cls => ir.params.all (fun kp => domClassParam kp.2) && (ir.returns.map domClassParam).getD true
-  | .func i => ir.params.all (fun kp => domFuncParam i kp.2) &&
+  | .cls => ir.params.all (fun kp => domClassParam kp.2 && domAstParam kp.2) &&
+      (ir.returns.map fun r => domClassParam r && domAstParam r).getD true
+  | .func i => ir.params.all (fun kp => domFuncParam i kp.2 && domAstParam kp.2) &&
       (match ir.returns with | some r => r.typ.isSome && r.doc.isSome && r.default.isNone | none => true)
-  | .argparse => ir.params.all (fun kp => domArgparseParam kp.2 && !endsWith kp.1 ['k', 'w', 'a', 'r', 'g', 's']) && ir.returns.isNone
+  | .argparse => ir.params.all (fun kp => domArgparseParam kp.2 && domAstParam kp.2 && !endsWith kp.1 ['k', 'w', 'a', 'r', 'g', 's']) && ir.returns.isNone
   | .doc st =>
     ir.params.all (fun kp => domDocParam kp.2) && (ir.returns.map domDocParam).getD true &&
     (match st with
